@@ -70,6 +70,9 @@ var orderFuncs = map[string]bool{
 	"src/core/vmexecutor.go:VMExecutor.after":                          true,
 }
 
+// fork tests per transcribed function (a multiset: where in the function they stand does not matter)
+var flagReads map[string][]string
+
 type site struct {
 	file, fn, callee string
 	used             bool
@@ -101,6 +104,139 @@ func calleeName(c *ast.CallExpr) string {
 
 func q(s string) string { return strconv.Quote(s) }
 
+// ---- package-level state written on the ledger path (class "shared mutable state")
+
+var ledgerFiles = map[string]bool{
+	"src/service/game.go": true, "src/service/transaction_pool.go": true, "src/service/miner_manager.go": true,
+	"src/service/refund_manager.go": true, "src/service/reward_calculator.go": true,
+	"src/executor/base_executor.go": true, "src/executor/contract_executor.go": true, "src/executor/jsonrpc_executor.go": true,
+	"src/executor/miner_executor.go": true, "src/executor/miner_node_executor.go": true, "src/executor/operator_executor.go": true,
+	"src/core/vmexecutor.go": true, "src/vm/init.go": true, "src/vm/evm.go": true, "src/vm/instructions.go": true,
+	"src/storage/account/accountdb_tuntun.go": true, "src/storage/account/account_object_ft.go": true,
+	"src/storage/account/accountdb_eth.go": true, "src/utility/data_convert.go": true,
+}
+
+var bigMutators = map[string]bool{"Add": true, "Sub": true, "Mul": true, "Div": true, "Mod": true, "Quo": true, "Rem": true, "Set": true,
+	"SetBytes": true, "SetInt64": true, "SetUint64": true, "SetString": true, "Neg": true, "Abs": true, "Exp": true, "Lsh": true, "Rsh": true,
+	"DivMod": true, "QuoRem": true, "And": true, "Or": true, "Xor": true, "Not": true, "Sqrt": true, "SetBit": true, "SetInt": true,
+	"SetFloat64": true, "SetPrec": true, "SetMode": true, "Clear": true, "SetOne": true}
+
+type gwrite struct{ file, fn, what string }
+
+func rootIdent(e ast.Expr) *ast.Ident {
+	for {
+		switch v := e.(type) {
+		case *ast.Ident:
+			return v
+		case *ast.SelectorExpr:
+			e = v.X
+		case *ast.IndexExpr:
+			e = v.X
+		case *ast.StarExpr:
+			e = v.X
+		case *ast.ParenExpr:
+			e = v.X
+		default:
+			return nil
+		}
+	}
+}
+
+// isPkgLevel: the identifier names a package-level variable of its package (declared in this or another file)
+// and is not shadowed by a local declaration inside the function.
+func isPkgLevel(id *ast.Ident, pkgVars map[string]bool, fd *ast.FuncDecl) bool {
+	if id == nil || id.Name == "_" || !pkgVars[id.Name] {
+		return false
+	}
+	if id.Obj == nil {
+		return true // unresolved in this file: declared in another file of the package
+	}
+	if n, ok := id.Obj.Decl.(ast.Node); ok {
+		return n.Pos() < fd.Pos() || n.Pos() > fd.End()
+	}
+	return false
+}
+
+func collectGlobalWrites(root string) []gwrite {
+	fset := token.NewFileSet()
+	var out []gwrite
+	dirs := map[string]bool{}
+	for f := range ledgerFiles {
+		dirs[filepath.Dir(f)] = true
+	}
+	for d := range dirs {
+		pkgs, err := parser.ParseDir(fset, filepath.Join(root, d), func(fi os.FileInfo) bool {
+			return !strings.HasSuffix(fi.Name(), "_test.go") && !strings.Contains(fi.Name(), "verif")
+		}, 0)
+		if err != nil {
+			continue
+		}
+		for _, pkg := range pkgs {
+			pkgVars := map[string]bool{}
+			for _, f := range pkg.Files {
+				for _, dcl := range f.Decls {
+					if gd, ok := dcl.(*ast.GenDecl); ok && gd.Tok == token.VAR {
+						for _, sp := range gd.Specs {
+							for _, n := range sp.(*ast.ValueSpec).Names {
+								pkgVars[n.Name] = true
+							}
+						}
+					}
+				}
+			}
+			for fname, f := range pkg.Files {
+				rel, _ := filepath.Rel(root, fname)
+				rel = filepath.ToSlash(rel)
+				if !ledgerFiles[rel] {
+					continue
+				}
+				for _, dcl := range f.Decls {
+					fd, ok := dcl.(*ast.FuncDecl)
+					if !ok || fd.Body == nil {
+						continue
+					}
+					fn := recvName(fd)
+					ast.Inspect(fd.Body, func(n ast.Node) bool {
+						switch v := n.(type) {
+						case *ast.AssignStmt:
+							if v.Tok == token.DEFINE {
+								return true
+							}
+							for _, l := range v.Lhs {
+								if id := rootIdent(l); isPkgLevel(id, pkgVars, fd) {
+									out = append(out, gwrite{rel, fn, "assign " + id.Name})
+								}
+							}
+						case *ast.IncDecStmt:
+							if id := rootIdent(v.X); isPkgLevel(id, pkgVars, fd) {
+								out = append(out, gwrite{rel, fn, "incdec " + id.Name})
+							}
+						case *ast.CallExpr:
+							if sel, ok := v.Fun.(*ast.SelectorExpr); ok && bigMutators[sel.Sel.Name] {
+								if id, ok := sel.X.(*ast.Ident); ok && isPkgLevel(id, pkgVars, fd) {
+									out = append(out, gwrite{rel, fn, "mutate " + id.Name + "." + sel.Sel.Name})
+								}
+							}
+						}
+						return true
+					})
+				}
+			}
+		}
+	}
+	sort.Slice(out, func(i, j int) bool {
+		a, b := out[i], out[j]
+		if a.file != b.file {
+			return a.file < b.file
+		}
+		if a.fn != b.fn {
+			return a.fn < b.fn
+		}
+		return a.what < b.what
+	})
+	return out
+}
+
 func main() {
 	root := "."
 	if len(os.Args) > 1 {
@@ -108,6 +244,7 @@ func main() {
 	}
 	var sites []site
 	order := map[string][]string{}
+	flagReads = map[string][]string{}
 	consts := map[string]string{}
 	fset := token.NewFileSet()
 	err := filepath.Walk(filepath.Join(root, "src"), func(p string, info os.FileInfo, err error) error {
@@ -191,8 +328,11 @@ func main() {
 				ast.Inspect(fd.Body, func(n ast.Node) bool {
 					switch x := n.(type) {
 					case *ast.CallExpr:
-						if orderCalls[calleeName(x)] || strings.HasPrefix(calleeName(x), "IsProposal") {
+						if orderCalls[calleeName(x)] {
 							items = append(items, item{x.Pos(), calleeName(x)})
+						}
+						if strings.HasPrefix(calleeName(x), "IsProposal") {
+							flagReads[key] = append(flagReads[key], calleeName(x))
 						}
 					case *ast.ReturnStmt:
 						items = append(items, item{x.Pos(), "return"})
@@ -273,6 +413,38 @@ func main() {
 			sep = ""
 		}
 		fmt.Fprintf(&sb, "  (%s, %s)%s\n", q(k), q(consts[k]), sep)
+	}
+	sb.WriteString("]\n\n")
+	sb.WriteString("/-- the flag inventory: the fork tests `IsProposalNNN()` inside each transcribed function, sorted -/\n")
+	sb.WriteString("def flagReads : List (String × List String) := [\n")
+	fk := make([]string, 0, len(flagReads))
+	for k := range flagReads {
+		fk = append(fk, k)
+	}
+	sort.Strings(fk)
+	for i, k := range fk {
+		sep := ","
+		if i == len(fk)-1 {
+			sep = ""
+		}
+		v := append([]string{}, flagReads[k]...)
+		sort.Strings(v)
+		var qs []string
+		for _, x := range v {
+			qs = append(qs, q(x))
+		}
+		fmt.Fprintf(&sb, "  (%s, [%s])%s\n", q(k), strings.Join(qs, ", "), sep)
+	}
+	sb.WriteString("]\n\n")
+	sb.WriteString("/-- writes to package-level state inside the files of the ledger path: assignments to, and in-place big.Int/Float\n    mutation of, package-level variables (file, function, what) -/\n")
+	sb.WriteString("def globalWrites : List (String × String × String) := [\n")
+	gw := collectGlobalWrites(root)
+	for i, g := range gw {
+		sep := ","
+		if i == len(gw)-1 {
+			sep = ""
+		}
+		fmt.Fprintf(&sb, "  (%s, %s, %s)%s\n", q(g.file), q(g.fn), q(g.what), sep)
 	}
 	sb.WriteString("]\n\nend Rangers.Generated.LedgerFacts\n")
 	fmt.Print(sb.String())
